@@ -216,7 +216,11 @@ class SpawnProcess(multiprocessing.context.SpawnProcess):
                 msg = os.strerror(exitcode)
                 if exitcode == 9:
                     msg += ': possibly out of memory'
-                raise OSError(exitcode, msg) from exc
+                # Do not raise here (in the collector thread): the Future must be
+                # resolved, and the log stream ended, for `join`, `result`, `wait`,
+                # `as_completed` to return. The error is raised by `join`/`result`.
+                error = OSError(exitcode, msg)
+                error.__cause__ = exc
 
         self._result_and_error_.close()
         self._result_and_error_ = None
